@@ -15,5 +15,5 @@ for f in seeded/good/*.diff; do
   for p in C11 C12 C13 C14; do echo "G-$n /verif/$f $p" >> $jobs; done
 done
 if [ -n "${REGRESS_SKIP:-}" ]; then grep -vE "$REGRESS_SKIP" $jobs > $jobs.f; mv $jobs.f $jobs; fi
-xargs -P $lanes -L 1 sh -c 'tools/mutrun.sh $0 $1 $2 2>&1 | grep -E "^mutant="' < $jobs
+xargs -P $lanes -L 1 sh -c 'tools/mutrun.sh $0 $1 $2 2>&1 | grep -a -E "^mutant=|findings:" | paste -sd" "' < $jobs
 rm -f $jobs
